@@ -1,8 +1,9 @@
 import OPM.Model.CmdMgr
 import OPM.Model.CmdMgrSpec
-import OPM.Lemmas.CmdMgrExcl
+import OPM.Lemmas.CmdMgrRecC
 import OPM.Model.Interp
 import OPM.Lemmas.Interp
+import OPM.Lemmas.InterpC04Runs
 /-!
 # C12 Cancel and Force requests take effect exactly as offered
 
@@ -185,6 +186,206 @@ theorem C12_counterexample : ¬ C12_full := by
   revert this
   decide +kernel
 
+/-! ## Requests for items that are not offered
+
+With the record invariant (`Rec`, repaired code incl. `fixes/C10-dispose-instances-on-stop.diff`) the offered
+flags of a run-log item can be read off the record: the flags are those of the last state.  A cancel / force
+request for a UOD item that is not offered as cancellable / forcible is rejected and changes nothing — at the
+command site (the item's command has started) always, at the node site (it has not) unless the item was
+*concluded without its node being touched*, which is what a request with rejected arguments leaves behind
+(Failed, node neither cancelled nor forced): there the request is accepted (`unoffered_counterexample`; the
+implementation does the same: recorded finding). -/
+
+theorem exists_snoc {α : Type} : ∀ (l : List α), l ≠ [] → ∃ pre x, l = pre ++ [x]
+  | [], h => absurd rfl h
+  | [a], _ => ⟨[], a, rfl⟩
+  | a :: b :: t, _ => by
+    obtain ⟨pre, x, e⟩ := exists_snoc (b :: t) (by simp)
+    exact ⟨a :: pre, x, by rw [e]; rfl⟩
+
+/-- The run-log flags of a record whose conclusive state, if any, is the last one. -/
+theorem projGo_spec : ∀ (marks : List (Mark × Bool)) (cmd : Bool),
+    (∀ pre m, marks = pre ++ [m] → ∀ p ∈ pre, p.1.conclusive = false) → marks ≠ [] →
+    ∃ pre m fr, marks = pre ++ [(m, fr)] ∧
+      projGo marks cmd = some (if m.conclusive then (false, false)
+        else (fr || cmd || pre.any (fun p => p.1 == .cmdSet) || m == .cmdSet, fr)) := by
+  intro marks
+  induction marks with
+  | nil => intro _ _ h; exact absurd rfl h
+  | cons a rest ih =>
+    intro cmd hlast _
+    obtain ⟨m, fr⟩ := a
+    cases rest with
+    | nil =>
+      refine ⟨[], m, fr, rfl, ?_⟩
+      simp only [projGo, List.any_nil, Bool.or_false]
+      split <;> rfl
+    | cons b rest' =>
+      have hm : m.conclusive = false := by
+        obtain ⟨pre0, x0, e0⟩ := exists_snoc (b :: rest') (by simp)
+        exact hlast ((m, fr) :: pre0) x0 (by rw [e0]; rfl) (m, fr) (List.mem_cons_self ..)
+      obtain ⟨pre, m', fr', e, hp⟩ := ih (cmd || m == .cmdSet) (by
+        intro pre' m'' he p hp
+        exact hlast ((m, fr) :: pre') m'' (by rw [he]; rfl) p (List.mem_cons_of_mem _ hp)) (by simp)
+      refine ⟨(m, fr) :: pre, m', fr', by rw [e]; rfl, ?_⟩
+      have : projGo ((m, fr) :: b :: rest') cmd = projGo (b :: rest') (cmd || m == .cmdSet) := by
+        simp [projGo, hm]
+      rw [this, hp]
+      congr 1
+      split
+      · rfl
+      · simp only [List.any_cons, Prod.mk.injEq, and_true]
+        generalize (m == Mark.cmdSet) = x
+        generalize (pre.any fun p => p.1 == Mark.cmdSet) = y
+        generalize (m' == Mark.cmdSet) = z
+        cases fr' <;> cases cmd <;> cases x <;> cases y <;> cases z <;> rfl
+
+/-- What "not offered" means for a record that satisfies the record invariant. -/
+theorem item_of_tok {t : Track} (h : TOK t) :
+    ∃ pre m fr, t.marks = pre ++ [(m, fr)] ∧
+      t.item = some (if m.conclusive then (false, false) else (fr || t.hasMark .cmdSet, fr)) ∧
+      (m.conclusive = true → t.concluded = true) ∧
+      (m.conclusive = false → t.concluded = false ∧ fr = t.free) := by
+  have hne : t.marks ≠ [] := by
+    intro e
+    have := h.created
+    simp [Track.hasMark, e] at this
+  obtain ⟨pre, m, fr, e, hp⟩ := projGo_spec t.marks false h.last hne
+  refine ⟨pre, m, fr, e, ?_, ?_, ?_⟩
+  · unfold Track.item
+    rw [hp]
+    congr 1
+    split
+    · rfl
+    · simp only [Track.hasMark, e, List.any_append, List.any_cons, List.any_nil, Bool.or_false, Prod.mk.injEq,
+        and_true]
+      generalize (m == Mark.cmdSet) = x
+      generalize (pre.any fun p => p.1 == Mark.cmdSet) = y
+      cases fr <;> cases x <;> cases y <;> rfl
+  · intro hm
+    simp [Track.concluded, e, hm]
+  · intro hm
+    have hnc : t.concluded = false := by
+      rw [concluded_false_iff]
+      intro p hp'
+      rw [e] at hp'
+      rcases List.mem_append.mp hp' with hp' | hp'
+      · exact h.last pre (m, fr) e p hp'
+      · simp at hp'; rw [hp']; exact hm
+    refine ⟨hnc, ?_⟩
+    have := h.snap hnc (m, fr) (by rw [e]; simp)
+    exact this
+
+/-- Cancel for an item that is not offered as cancellable is rejected and changes nothing, unless the item was
+concluded without a command and without its node being touched (see the section header). -/
+theorem unoffered_cancel_rejected (cfg : Cfg) (hfix : cfg.fixCancel = true) (hS : cfg.fixStop = true)
+    (hI : cfg.fixInstr = true) (ops : List Op) (i : Nat) :
+    let s := reach cfg ops
+    offeredCancel s i = false →
+    (∀ t, getTrack s.track i = some t → ¬(t.cmd = none ∧ t.concluded = true ∧ t.free = true)) →
+    cancel s i = (s, .err) := by
+  intro s hoff hex
+  have r : Rec s := rec_run (good_init cfg hfix) (rec_init cfg hS hI) ops
+  cases hgt : getTrack s.track i with
+  | none => exact cancel_unknown_rejected s i hgt
+  | some t =>
+    obtain ⟨htm, _⟩ := getTrack_some hgt
+    have htk : s.tracking = true := by
+      cases hx : s.tracking with
+      | true => rfl
+      | false => have := r.off hx; rw [this] at htm; cases htm
+    obtain ⟨pre, m, fr, _, hitem, hc1, hc2⟩ := item_of_tok (r.tok t htm)
+    simp only [offeredCancel, hgt, hitem] at hoff
+    cases hm : m.conclusive with
+    | true =>
+      have hcon := hc1 hm
+      cases hcmd : t.cmd with
+      | some ser =>
+        obtain ⟨o, h1, _, h3⟩ := r.cmdObj t htm ser hcmd
+        exact cancel_ended_rejected s r.fixS.2 i t o hgt (by simp [trackObj, hcmd, h1]) (h3 hcon)
+      | none =>
+        cases hfr : t.free with
+        | false => exact cancel_refused_rejected s htk i t hgt hcmd hfr
+        | true => exact absurd ⟨hcmd, hcon, hfr⟩ (hex t hgt)
+    | false =>
+      obtain ⟨_, hfree⟩ := hc2 hm
+      simp only [hm, Bool.false_eq_true, if_false, Bool.or_eq_false_iff] at hoff
+      have hcmd : t.cmd = none := by
+        have := (r.tok t htm).cmdSet
+        rw [hoff.2] at this
+        cases hx : t.cmd with
+        | none => rfl
+        | some _ => rw [hx] at this; cases this
+      exact cancel_refused_rejected s htk i t hgt hcmd (by rw [← hfree]; exact hoff.1)
+
+/-- The same for force. -/
+theorem unoffered_force_rejected (cfg : Cfg) (hfix : cfg.fixCancel = true) (hS : cfg.fixStop = true)
+    (hI : cfg.fixInstr = true) (ops : List Op) (i : Nat) (t : Track) :
+    let s := reach cfg ops
+    getTrack s.track i = some t → offeredForce s i = false →
+    ¬(t.cmd = none ∧ t.concluded = true ∧ t.free = true) →
+    force s i = (s, .err) := by
+  intro s hgt hoff hex
+  have r : Rec s := rec_run (good_init cfg hfix) (rec_init cfg hS hI) ops
+  obtain ⟨htm, hti⟩ := getTrack_some hgt
+  have htk : s.tracking = true := by
+    cases hx : s.tracking with
+    | true => rfl
+    | false => have := r.off hx; rw [this] at htm; cases htm
+  obtain ⟨pre, m, fr, _, hitem, hc1, hc2⟩ := item_of_tok (r.tok t htm)
+  simp only [offeredForce, hgt, hitem] at hoff
+  cases hcmd : t.cmd with
+  | some ser =>
+    obtain ⟨o, h1, h2, h3⟩ := r.cmdObj t htm ser hcmd
+    have hto : trackObj s t = some o := by simp [trackObj, hcmd, h1]
+    cases hf : o.finalized with
+    | true => exact force_ended_rejected s r.fixS.2 i t o hgt hto hf
+    | false =>
+      -- the command runs: the record is open, so "not forcible" is the node's flag
+      have hm : m.conclusive = false := by
+        cases hx : m.conclusive with
+        | false => rfl
+        | true => rw [h3 (hc1 hx)] at hf; cases hf
+      obtain ⟨_, hfree⟩ := hc2 hm
+      simp only [hm, Bool.false_eq_true, if_false] at hoff
+      have hfr : t.free = false := by rw [← hfree]; exact hoff
+      unfold force
+      rw [hgt]
+      simp only [hto, hf, Bool.and_false, Bool.false_eq_true, if_false, h2, hti]
+      unfold markForced
+      simp [htk, hgt, hfr]
+  | none =>
+    cases hfr : t.free with
+    | false => exact force_refused_rejected s htk i t hgt hcmd hfr
+    | true =>
+      cases hm : m.conclusive with
+      | true => exact absurd ⟨hcmd, hc1 hm, hfr⟩ hex
+      | false =>
+        obtain ⟨_, hfree⟩ := hc2 hm
+        simp only [hm, Bool.false_eq_true, if_false] at hoff
+        rw [hfree, hfr] at hoff; cases hoff
+
+/-- The statement without the exception: every request for an item that is not offered is rejected. -/
+def unoffered_full : Prop :=
+  ∀ (cfg : Cfg) (ops : List Op) (i : Nat), cfg.fixCancel = true → cfg.fixStop = true → cfg.fixInstr = true →
+    (offeredCancel (reach cfg ops) i = false → (cancel (reach cfg ops) i).2 = .err) ∧
+    (offeredForce (reach cfg ops) i = false → (force (reach cfg ops) i).2 = .err)
+
+/-- It fails at the node site: the item of a request whose arguments were rejected is shown as failed (neither
+cancellable nor forcible), yet a cancel — and a force — request for it is accepted and sets the node's flag. -/
+theorem unoffered_counterexample : ¬ unoffered_full := by
+  intro h
+  have := (h { cmds := [⟨6, none⟩] } [.user .start, .tick, .req 0 true, .tick] 1 rfl rfl rfl).1 (by decide +kernel)
+  revert this
+  decide +kernel
+
+/-- …the same history, spelled out. -/
+example :
+    let s := reach { cmds := [⟨6, none⟩] } [.user .start, .tick, .req 0 true, .tick]
+    s.track.map (fun t => (t.id, t.marks.map (·.1), t.item)) = [(1, [.created, .failed], some (false, false))] ∧
+    (cancel s 1).2 = .ok ∧ (force s 1).2 = .ok ∧ ((cancel s 1).1.track.map (·.nCancelled)) = [true] := by
+  decide +kernel
+
 /-! ## Interpreter half -/
 
 section interp
@@ -268,6 +469,31 @@ theorem forced_threshold_starts (p : Prog) (s : St) (n : Nat) (below : List Fram
   unfold stepFrame
   simp only [forced_threshold_not_awaited p s n hf]
   simp
+
+/-! ### Run-level lift of the cancel clause (added by the C04 builder; proofs in `Lemmas/InterpC04Runs.lean`) -/
+
+/-- **After an accepted cancel, no body start until the node is reset — over whole runs, every method.**
+If `cancel p s n` is accepted for a Watch/Alarm `n` in a state whose generators are quiet (every reachable
+state, `OPM.C04.reachable_allQuiet`), then along every continuation (ticks that reach their `EndTick`s with any
+clocks and tag values, further cancel / force / completion / inject requests) in which `n`'s `cancelled` flag is
+still set — it is cleared only by a reset that covers the node (`OPM.C04.cancelled_sticks`: the re-arm of an Alarm
+at or above it, a macro call) — `n` is never activated and no tick's event log contains a `bodyStart n`. -/
+theorem accepted_cancel_never_runs_until_reset (p : Prog) (s s0 s' : St) (n : Nat)
+    (hw : isCond p n = true) (hq : AllQuiet p s) (hc : Interp.cancel p s n = some s0)
+    (hrun : RunP p (fun x => (x.rt n).cancelled = true) s0 s') :
+    (s'.rt n).activated = false ∧
+    ∀ i, (tick p s' i).2 = true → ((tick p s' i).1.rt n).cancelled = true → bsCount (tick p s' i).1 n = 0 := by
+  have ha : (s0.rt n).activated = false := by
+    obtain ⟨c, hk⟩ := isCond_kind p n hw
+    unfold Interp.cancel at hc
+    split at hc
+    · rename_i h
+      cases hc
+      unfold cancellable at h
+      rcases hk with hk | hk <;> simp [hk] at h <;> simp [h]
+    · cases hc
+  have := OPM.Interp.cancelled_never_runs_until_reset p s0 s' n hw (allQuiet_cancel p s s0 n hc hq) ha hrun
+  exact ⟨this.1, this.2.2⟩
 
 end interp
 
